@@ -62,6 +62,14 @@ void DecodeDATA(IntType CodeIntType, IntType DataIntType) {
             if ((t.Typ == TempInt) && mFirstPassUnknown(t.Flags)) {
                 t.Contents.Int &= UnknownMask;
             }
+            if (SetMaxCodeLen(
+                        4
+                        * (CodeLen + 1
+                           + ((t.Typ == TempString) ? 2 * t.Contents.str.len : 0)))) {
+                WrError(ErrNum_CodeOverflow);
+                ValOK = False;
+                break;
+            }
 
             switch (t.Typ) {
             case TempFloat:
